@@ -357,6 +357,26 @@ func init() {
 			sh.mu.Unlock()
 		}
 		leakBase := goleak.IgnoreCurrent()
+		// the longest time this process went unscheduled during the command (2 ms heartbeat), see the run op
+		var maxGap atomic.Int64
+		hbStop := make(chan struct{})
+		go func() {
+			last := time.Now()
+			for {
+				select {
+				case <-hbStop:
+					return
+				default:
+				}
+				time.Sleep(2 * time.Millisecond)
+				now := time.Now()
+				if g := int64(now.Sub(last)) - int64(2*time.Millisecond); g > maxGap.Load() {
+					maxGap.Store(g)
+				}
+				last = now
+			}
+		}()
+		defer close(hbStop)
 		t0 := time.Now()
 		if v, ok := p["sigint"]; ok { // interrupt the run like Ctrl-C, <v> ms after its setup has run
 			go func() {
@@ -427,9 +447,10 @@ func init() {
 				}
 			}
 		}
-		return fmt.Sprintf("%s err=%d banner=%s stats=%d/%d/%d truth=%d/%d setups=%d started=%d maxflight=%d ret=%d envAfter=%s ticks=%d later=%d leak=%d pushed=%s labels=%s",
+		return fmt.Sprintf("%s err=%d banner=%s stats=%d/%d/%d truth=%d/%d setups=%d started=%d maxflight=%d ret=%d envAfter=%s ticks=%d later=%d leak=%d pushed=%s labels=%s stall=%d",
 			verdict, e, banner, st["successful"], st["failed"], st["dropped"], truthS.Load(), truthF.Load(), setups.Load(),
-			started.Load(), maxflight.Load(), ret.Milliseconds(), envAfter, ticks.Load(), laterRan.Load(), leak, pushed, labels)
+			started.Load(), maxflight.Load(), ret.Milliseconds(), envAfter, ticks.Load(), laterRan.Load(), leak, pushed, labels,
+			time.Duration(maxGap.Load()).Milliseconds())
 	})
 }
 
